@@ -505,69 +505,97 @@ def schemeOps (I : MOps) : MOps := outerOps I Scheme.keysOf (Scheme.matchReq I) 
 
 /-! ## Router -/
 
-section
-variable (E : Env)
-
-/-- The tower `SchemeMatcher<T>` of the code. -/
-def towerOps : MOps :=
-  schemeOps (hostOps E (ipOps (methodOps (headerOps E (dateTimeOps (pathOps E))))))
-
-/-- `router::Router` (`config` is the environment). -/
-structure Router where
-  matcher : (towerOps E).M
+/-- `router::Router` over an arbitrary outermost matcher `O` (the code instantiates it with
+`SchemeMatcher<T>`; the model with the specification-level tower `towerOps E` below, or with the
+tower over the real regex-tree model, RouterTreeLayers.lean). -/
+structure RouterG (O : MOps) where
+  matcher : O.M
   routes : List (String × Route)
-
-def Router.empty : Router E := ⟨(towerOps E).empty, []⟩
-
-/-- `Router::insert_route`. -/
-def Router.insert (r : Route) (S : Router E) : Router E :=
-  ⟨(towerOps E).insert r S.matcher, aupsert (fun _ => r) r r.id S.routes⟩
-
-/-- `Router::remove`. -/
-def Router.remove (id : String) (S : Router E) : Router E × Option Route :=
-  if (alookup id S.routes).isSome then
-    let rm := (towerOps E).remove id S.matcher
-    (⟨rm.1, S.routes.filter (fun e => e.1 != id)⟩, rm.2)
-  else (S, none)
-
-/-- `Router::batch_remove`. -/
-def Router.batchRemove (ids : List String) (S : Router E) : Router E :=
-  ⟨(towerOps E).batchRemove ids S.matcher, S.routes.filter (fun e => !ids.contains e.1)⟩
-
-/-- `Router::apply_change_set` (on already converted routes). -/
-def Router.applyChangeSet (added updated : List Route) (removed : List String) (S : Router E) : Router E :=
-  let removed := removed ++ updated.map (·.id)
-  let S := S.batchRemove E removed
-  let S := updated.foldl (fun S r => S.insert E r) S
-  added.foldl (fun S r => S.insert E r) S
-
-/-- `Router::match_request`. -/
-def Router.matchReq (S : Router E) (q : Req) : List Route := (towerOps E).matchReq S.matcher q
-
-/-- `Router::len`. -/
-def Router.len (S : Router E) : Nat := S.routes.length
-
-/-- `Router::get_route_by_id`. -/
-def Router.getRouteById (S : Router E) (id : String) : Option Route := alookup id S.routes
-
-/-- `Router::trace_request` (on the already rebuilt request). -/
-def Router.trace (S : Router E) (q : Req) : List Trace := (towerOps E).trace S.matcher q
 
 /-- `routes.sort_by_key(|b| Reverse(b.priority()))` (stable). -/
 def sortByPriority (rs : List Route) : List Route :=
   rs.mergeSort (fun a b => decide (b.priority ≤ a.priority))
 
+namespace RouterG
+variable (O : MOps)
+
+def empty : RouterG O := ⟨O.empty, []⟩
+
+/-- `Router::insert_route`. -/
+def insert (r : Route) (S : RouterG O) : RouterG O :=
+  ⟨O.insert r S.matcher, aupsert (fun _ => r) r r.id S.routes⟩
+
+/-- `Router::remove`. -/
+def remove (id : String) (S : RouterG O) : RouterG O × Option Route :=
+  if (alookup id S.routes).isSome then
+    let rm := O.remove id S.matcher
+    (⟨rm.1, S.routes.filter (fun e => e.1 != id)⟩, rm.2)
+  else (S, none)
+
+/-- `Router::batch_remove`. -/
+def batchRemove (ids : List String) (S : RouterG O) : RouterG O :=
+  ⟨O.batchRemove ids S.matcher, S.routes.filter (fun e => !ids.contains e.1)⟩
+
+/-- `Router::apply_change_set` (on already converted routes). -/
+def applyChangeSet (added updated : List Route) (removed : List String) (S : RouterG O) : RouterG O :=
+  let removed := removed ++ updated.map (·.id)
+  let S := batchRemove O removed S
+  let S := updated.foldl (fun S r => insert O r S) S
+  added.foldl (fun S r => insert O r S) S
+
+/-- `Router::match_request`. -/
+def matchReq (S : RouterG O) (q : Req) : List Route := O.matchReq S.matcher q
+
+/-- `Router::len`. -/
+def len (S : RouterG O) : Nat := S.routes.length
+
+/-- `Router::get_route_by_id`. -/
+def getRouteById (S : RouterG O) (id : String) : Option Route := alookup id S.routes
+
+/-- `Router::trace_request` (on the already rebuilt request). -/
+def trace (S : RouterG O) (q : Req) : List Trace := O.trace S.matcher q
+
 /-- `Router::get_route`. -/
-def Router.getRoute (S : Router E) (q : Req) : Option Route :=
-  (sortByPriority (S.matchReq E q)).head?
+def getRoute (S : RouterG O) (q : Req) : Option Route :=
+  (sortByPriority (matchReq O S q)).head?
 
 /-- `Router::get_trace`: (routes listed by the trace, final route). -/
-def Router.getTrace (S : Router E) (q : Req) : List Route × Option Route :=
-  let routes := routesOfList (S.trace E q)
+def getTrace (S : RouterG O) (q : Req) : List Route × Option Route :=
+  let routes := routesOfList (trace O S q)
   (routes, (sortByPriority routes).head?)
 
 /-- `build`: a router filled by successive `insert`s. -/
-def Router.build (R : List Route) : Router E := R.foldl (fun S r => S.insert E r) (Router.empty E)
+def build (R : List Route) : RouterG O := R.foldl (fun S r => insert O r S) (empty O)
+
+end RouterG
+
+section
+variable (E : Env)
+
+/-- The tower `SchemeMatcher<T>` of the code, regex trees at specification level. -/
+def towerOps : MOps :=
+  schemeOps (hostOps E (ipOps (methodOps (headerOps E (dateTimeOps (pathOps E))))))
+
+/-- The router model over the specification-level tower (`config` is the environment). -/
+abbrev Router := RouterG (towerOps E)
+
+@[reducible] def Router.empty : Router E := RouterG.empty (towerOps E)
+@[reducible] def Router.insert (r : Route) (S : Router E) : Router E := RouterG.insert (towerOps E) r S
+@[reducible] def Router.remove (id : String) (S : Router E) : Router E × Option Route :=
+  RouterG.remove (towerOps E) id S
+@[reducible] def Router.batchRemove (ids : List String) (S : Router E) : Router E :=
+  RouterG.batchRemove (towerOps E) ids S
+@[reducible] def Router.applyChangeSet (added updated : List Route) (removed : List String)
+    (S : Router E) : Router E := RouterG.applyChangeSet (towerOps E) added updated removed S
+@[reducible] def Router.matchReq (S : Router E) (q : Req) : List Route := RouterG.matchReq (towerOps E) S q
+@[reducible] def Router.len (S : Router E) : Nat := RouterG.len (towerOps E) S
+@[reducible] def Router.getRouteById (S : Router E) (id : String) : Option Route :=
+  RouterG.getRouteById (towerOps E) S id
+@[reducible] def Router.trace (S : Router E) (q : Req) : List Trace := RouterG.trace (towerOps E) S q
+@[reducible] def Router.getRoute (S : Router E) (q : Req) : Option Route := RouterG.getRoute (towerOps E) S q
+@[reducible] def Router.getTrace (S : Router E) (q : Req) : List Route × Option Route :=
+  RouterG.getTrace (towerOps E) S q
+@[reducible] def Router.build (R : List Route) : Router E := RouterG.build (towerOps E) R
 
 end
 
